@@ -83,7 +83,7 @@ def coercion_true_test(
     @functools.wraps(tester)
     def f(series: pd.Series) -> bool:
         result = tester(series)
-        return False if result is None else series.all()
+        return False if result is None else bool(result.all())
 
     return f
 
